@@ -1167,6 +1167,54 @@ func (w *tw) exercise(round int) {
 		w.wantErr("Close", err, ce)
 		w.count("Close", true)
 	}
+	// ---- a closed File as an ARGUMENT ----
+	// deep is closed; its fid number is free and (the pool hands numbers back
+	// last in, first out) goes to the very next handle. A closed handle denotes
+	// no server-side File any more: an operation given it must fail, not be
+	// carried out on whatever File now owns the number.
+	for _, how := range []string{"Link", "RenameAt", "Rename"} {
+		nm := "dz" // a directory takes the number: the target of the renames
+		if how == "Link" {
+			nm = "hz" // a file: the target of the link
+		}
+		other := w.derive(d1, nm)
+		if other == nil {
+			break
+		}
+		var err error
+		o := w.around(how+"(closed File)", func() {
+			switch how {
+			case "RenameAt":
+				err = d1.RenameAt("hx", deep, "moved")
+			case "Rename":
+				if hy := w.derive(d1, "hy"); hy != nil {
+					err = hy.Rename(deep, "moved")
+				} else {
+					err = errors.New("setup")
+				}
+			default:
+				err = d1.Link(deep, "lnk")
+			}
+		})
+		if o.hung {
+			return
+		}
+		bad := err == nil
+		for _, cl := range realCalls(o.calls) {
+			if cl.Method == "RenameAt" || cl.Method == "Link" {
+				bad = true
+			}
+		}
+		if bad {
+			w.bad("C03", "closed-File-argument-carried-out-on-another-File:"+how, map[string]any{"err": fmt.Sprint(err), "backend_calls": callList(o.calls), "closed_fid": w.fid[deep], "fid_of_the_new_handle": w.fid[other]})
+		}
+		w.count(how+"-closed-argument", true)
+		// give the number back for the next round
+		o = w.around("Close", func() { other.Close() })
+		if o.hung {
+			return
+		}
+	}
 	if w.c.WantSample() {
 		w.c.Sample(map[string]any{"version": w.ver, "walk_getattr_mode": w.rf.WGA, "backend_calls_recorded": w.rf.Len(), "frames_tapped": w.tp.n()})
 	}
